@@ -97,23 +97,25 @@ pub fn check_layer(f: &P, bound: usize, loc: &mut Local) {
     };
     let vb = valid(&base);
     explore(loc, "layer", bound, &|| json!({"f": f}), &base, || A::layer(f), |a, _| valid(a) == vb && (vb || a.is_err() == base.is_err()), |a, b| a == b);
-    let base = V::layered_operations(f);
-    let groups_ok = |r: &Res<(Vec<Vec<usize>>, Vec<usize>)>| -> Option<bool> {
-        match r {
-            Err(_) => None,
-            Ok((g, u)) => {
-                // every visited operation exactly once, all in consistent groups: compare as (operation -> group) on visited ones
+    // grouped form: judged by the C15 oracle against the SAME backend's layer() under the same tape
+    let grouped_ok = |l: &Res<(Vec<usize>, Vec<usize>)>, g: &Res<(Vec<Vec<usize>>, Vec<usize>)>| -> Option<bool> {
+        match (l, g) {
+            (Ok((order, unv)), Ok((groups, unv2))) => {
                 let n = f.edges.len();
-                Some((0..n).all(|v| u[v] == 1 || g.iter().map(|grp| grp.iter().filter(|&&x| x == v).count()).sum::<usize>() == 1))
+                Some(unv == unv2 && groups.iter().flatten().all(|&x| x < n) && (0..n).all(|v| {
+                    unv[v] == 1 || {
+                        let occ: Vec<usize> = groups.iter().enumerate().filter(|(_, g)| g.contains(&v)).map(|(i, _)| i).collect();
+                        let times: usize = groups.iter().map(|g| g.iter().filter(|&&x| x == v).count()).sum();
+                        times == 1 && occ == vec![order[v]]
+                    }
+                }))
             }
+            _ => None,
         }
     };
-    let gb = groups_ok(&base);
-    explore(loc, "layered_operations", bound, &|| json!({"f": f}), &base, || A::layered_operations(f), |a, _| groups_ok(a) == gb && match (a, &base) {
-        (Ok((_, ua)), Ok((_, uv))) => ua == uv,
-        (Err(_), Err(_)) => true,
-        _ => false,
-    }, |a, b| a == b);
+    let base = (V::layer(f), V::layered_operations(f));
+    let gb = grouped_ok(&base.0, &base.1);
+    explore(loc, "layered_operations", bound, &|| json!({"f": f}), &base, || (A::layer(f), A::layered_operations(f)), |a, b| grouped_ok(&a.0, &a.1) == gb && a.1.is_err() == b.1.is_err(), |a, b| a == b);
     loc.sample(|| json!({"f": f}));
 }
 
